@@ -239,7 +239,8 @@ class TelegramQueue:
 
     def _run_telegram_received_cbs(self, telegram: Telegram) -> None:
         """Run registered callbacks. Don't propagate exceptions."""
-        for callback in self.telegram_received_cbs:
+        # iterate over a copy: a callback may unregister itself (or others) while running
+        for callback in tuple(self.telegram_received_cbs):
             if not callback.is_within_filter(telegram):
                 continue
             try:
